@@ -226,6 +226,12 @@ func (o *seqOracle) onUpload(inst int, key string, data []byte, opts *ctlog.Uplo
 		return
 	}
 	w := o.w
+	if o.tampered && strings.HasPrefix(key, "tile/data/") {
+		// after tampering the full audit is off (the store may hold anything), but what THIS process publishes must
+		// still be the committed tree: a data tile it writes carries, at every index already committed before this
+		// round, exactly the committed leaf (whatever a tampered right-edge tile said at load time)
+		o.auditRepublished(inst, key, data)
+	}
 	if key == "checkpoint" {
 		c := w.keys.parseCk(data)
 		committed := false
@@ -255,6 +261,28 @@ func (o *seqOracle) onUpload(inst int, key string, data []byte, opts *ctlog.Uplo
 		o.pubHist = append(o.pubHist, c)
 		if c.OK && !o.tampered {
 			o.audit("C04", "at-publish", c)
+		}
+	}
+}
+
+func (o *seqOracle) auditRepublished(inst int, key string, data []byte) {
+	raw, err := sqGunzip(data)
+	if err != nil {
+		return
+	}
+	ls, _, _ := parseTileLeaves(raw) // trailing bytes a tampered tile carried along are not this oracle's subject
+	h := o.head()
+	if h == nil {
+		return
+	}
+	// the tree the uploading round extends: the head, or (between its lock write and its uploads) the one before
+	for _, l := range ls {
+		if l.Index < 0 || l.Index >= int64(len(h.hashes)) {
+			continue
+		}
+		if sqLeafHash(l.MTL) != h.hashes[l.Index] {
+			o.fail("C08", "republished-leaf-differs-from-committed", "instance %d uploaded %s whose entry with index %d is not the leaf committed at that index (the process continued from something other than the committed tree)", inst, key, l.Index)
+			return
 		}
 	}
 }
